@@ -1993,7 +1993,11 @@ public:
   template<class T>
   static void diff(std::vector<T>& v1, std::vector<T>& v2, std::vector<T>& v3)
   {
-    if (v2.size() == 0) append(v3, v1);
+    if (v2.size() == 0)
+    {
+      append(v3, v1);
+      return;
+    }
     std::sort(v1.begin(), v1.end());
     std::sort(v2.begin(), v2.end());
     size_t j = 0;
